@@ -35,14 +35,14 @@ $(foreach k,$(ST_CFGS_SEQ),$(BUILD)/st_cfg_$(k).o): $(BUILD)/st_cfg_%.o: /verif/
 $(BUILD)/st_hist: $(BUILD)/st_hist.o $(BUILD)/core.o $(foreach k,$(ST_CFGS_TBB) $(ST_CFGS_SEQ),$(BUILD)/st_cfg_$(k).o)
 	$(CXX) $(LDFLAGS_ASAN) $^ -o $@
 
-# pm_base: one object per (option family 1..9, column-type group 0..2)
-PMB_OBJS = $(foreach f,1 2 3 4 5 6 7 8 9,$(foreach g,0 1 2,$(BUILD)/pm_base_cfg_$(f)_$(g).o))
+# pm_base: one object per (option family 1..11, column-type group 0..2)
+PMB_OBJS = $(foreach f,1 2 3 4 5 6 7 8 9 10 11,$(foreach g,0 1 2,$(BUILD)/pm_base_cfg_$(f)_$(g).o))
 define PMB_RULE
 $(BUILD)/pm_base_cfg_$(1)_$(2).o: /verif/engines/pm_base_cfg.cpp
 	@mkdir -p $(BUILD)
 	$(CXX) $(CXXFLAGS_COMMON) $(SAN) $(INC) -DPMB_FAMILY=$(1) -DPMB_GROUP=$(2) -c $$< -o $$@
 endef
-$(foreach f,1 2 3 4 5 6 7 8 9,$(foreach g,0 1 2,$(eval $(call PMB_RULE,$(f),$(g)))))
+$(foreach f,1 2 3 4 5 6 7 8 9 10 11,$(foreach g,0 1 2,$(eval $(call PMB_RULE,$(f),$(g)))))
 $(BUILD)/pm_base: $(BUILD)/pm_base.o $(BUILD)/core.o $(PMB_OBJS)
 	$(CXX) $(LDFLAGS_ASAN) $^ -o $@
 
